@@ -500,6 +500,10 @@ type ssaStyle struct {
 
 // newSSAStyleFromStyle returns an SSA style based on a Style
 func newSSAStyleFromStyle(i Style) *ssaStyle {
+	// Style may have no inline style
+	if i.InlineStyle == nil {
+		i.InlineStyle = &StyleAttributes{}
+	}
 	return &ssaStyle{
 		alignment:       i.InlineStyle.SSAAlignment,
 		alphaLevel:      i.InlineStyle.SSAAlphaLevel,
